@@ -97,11 +97,13 @@ def run(model, tier="quick"):
 
 
 MANIFEST = {
-    "technique": "ledger identity of the liquidation step against a reference from LiquidationLogic, loop-shape / None-flow / wallet-reachability rules",
+    "technique": "ledger identity of the liquidation step and canonical-loop identity of the bar-end procedure against references (value numbering), wallet-reachability rule, constant table",
     "claim": "The liquidation step equals, path by path, a reference ledger (close factor selection, repayment cap, bonus "
-             "and its capped inverse, indices and prices keyed by the right token, record fields); the loop condition is "
-             "0 < HF < 1 on the unrounded HF refreshed each step; each debt is attempted once; selections cannot be None at "
-             "the call; no wallet primitive is reachable from liquidation.",
-    "note": "Trusted: reference ledger in sa/props/aave_refs.py; shape recognisers of _liquidate (a changed shape is an "
-            "analysis error). Not decided: pair selection policy; post-loop HF for concrete portfolios.",
+             "and its capped inverse, indices and prices keyed by the right token, every field of the action record incl. "
+             "its amounts); the bar-end loop equals the reference procedure as a canonical one-iteration transfer relation "
+             "(test 0 < HF < 1 on the unrounded HF read before the loop and after each step, smallest unvisited debt / "
+             "largest collateral, stop without a pair so that no None reaches the step, debt marked visited before the "
+             "attempt on every iteration, rejected step survived); no wallet primitive is reachable from liquidation.",
+    "note": "Trusted: reference ledger and reference loop in sa/props/aave_refs.py (the pair-selection policy is the code's; "
+            "the statement leaves it open). Not decided: post-loop HF for concrete portfolios.",
 }
